@@ -1,11 +1,11 @@
-(* C03 — per-operation preservation: SetProtocol, SetService, SetPeer (without
-   the allow-list transfer), with the connection / stream link. *)
+(* C03 — per-operation preservation: SetProtocol, SetService, SetPeer (with and
+   without the allow-list transfer), with the connection / stream link. *)
 From Coq Require Import List ZArith Bool Arith Lia.
 From Verif Require Import lib.Wire c03.Int64 c03.Model c03.Spec c03.Proofs_Int64 c03.Proofs_Base
      c03.Proofs_Sum c03.Proofs_Reach c03.Proofs_Link c03.Proofs_Targets c03.Proofs_Frames c03.Proofs_Frames2
      c03.Proofs_Frames3 c03.Proofs_Kill c03.Proofs_OpsMem c03.Proofs_Done c03.Proofs_OpsDone c03.Proofs_OpsNew
      c03.Proofs_OpsOpen c03.Proofs_Hist c03.Proofs_Repar c03.Proofs_Repar2 c03.Proofs_Move c03.Proofs_Attach
-     c03.Proofs_Attach1 c03.Proofs_Link2.
+     c03.Proofs_Attach1 c03.Proofs_Link2 c03.Proofs_Transfer.
 Import ListNotations.
 Local Open Scope Z_scope.
 
@@ -150,9 +150,33 @@ Proof.
         split; [exact P1 | split; [exact G' | exact R]].
 Qed.
 
-(* ---- SetPeer (no allow-list transfer) --------------------------------------------------------- *)
+(* ---- SetPeer ------------------------------------------------------------------------------------ *)
 Definition sys_of (al : bool) : sid := if al then ASystem else System.
 Definition tr_of (al : bool) : sid := if al then ATransient else Transient.
+
+(* the abstract successors Spec.astep lists for SetPeer *)
+Definition ok_state (a : astate) (i q : nat) (ac : aconn) (still : bool) : astate :=
+  let a1 := set_par a (Conn i) [Peer q; if still then ASystem else System] in
+  mkAstate (holders a1) (nset (aconns a1) i (mkAconn (ac_ep ac) still (Some q) (ac_open ac) (ac_adm ac))) (astreams a1).
+Definition moved_state (a : astate) (i : nat) (ac : aconn) (p : list sid) : astate :=
+  let a1 := set_par a (Conn i) p in
+  mkAstate (holders a1) (nset (aconns a1) i (mkAconn (ac_ep ac) false None (ac_open ac) (ac_adm ac))) (astreams a1).
+
+Lemma set_par_fields : forall a s h P, hget (holders a) s = Some h ->
+  holders (set_par a s P) = repar a s h P /\ aconns (set_par a s P) = aconns a /\ astreams (set_par a s P) = astreams a.
+Proof. intros a s h P G. unfold set_par, repar. rewrite G. repeat split. Qed.
+
+Lemma hget_repar : forall a s h P y,
+  hget (repar a s h P) y = if sid_eqb s y then Some (mkHolder (h_own h) P (h_chain h) (h_dead h)) else hget (holders a) y.
+Proof. intros. unfold repar. apply hget_hset. Qed.
+
+Lemma hget_self : forall a s h y, hget (holders a) s = Some h ->
+  hget (holders a) y = if sid_eqb s y then Some h else hget (holders a) y.
+Proof. intros a s h y G. destruct (sid_eqb s y) eqn:X; [apply sid_eqb_eq in X; subst y; exact G | reflexivity]. Qed.
+
+Lemma nget_self : forall A (l : list (nat * A)) i v i', nget l i = Some v ->
+  nget l i' = if Nat.eqb i i' then Some v else nget l i'.
+Proof. intros A l i v i' G. destruct (Nat.eqb i i') eqn:X; [apply Nat.eqb_eq in X; subst i'; exact G | reflexivity]. Qed.
 
 Lemma set_peer_eq : forall c st i q ci,
   nget (conns st) i = Some ci -> ci_peer ci = None ->
@@ -173,65 +197,187 @@ Proof.
     destruct (charge_one (Peer q) _ _) as [m3|e1]; cbn [ci_allow ci_in ci_fd ci_peer ci_ip ci_ep]; rewrite ?Al; reflexivity.
 Qed.
 
-Theorem set_peer_inv : forall c st a i q ac,
-  cfg_ok c -> Inv c (scopes st) a -> Link st a -> nget (aconns a) i = Some ac ->
-  (ac_peer ac = None -> ac_allow ac = false \/ ep_allowed_peer c q (ac_ep ac) = true) ->
-  novf (scopes st) (mem (use_of (scopes st) (Conn i))) ->
-  Inv c (scopes (fst (step c st (OSetPeer i q)))) (anext c st a (OSetPeer i q)) /\
-  Link (fst (step c st (OSetPeer i q))) (anext c st a (OSetPeer i q)).
+(* SetPeer that does not have to move the connection off the allow-list *)
+Lemma set_peer_plain : forall c st a i q ac ci h al,
+  cfg_ok c -> Inv c (scopes st) a -> Link st a ->
+  nget (aconns a) i = Some ac -> nget (conns st) i = Some ci -> hget (holders a) (Conn i) = Some h ->
+  ac_peer ac = None -> ci_peer ci = None -> ci_allow ci = al -> ac_allow ac = al -> ci_ep ci = ac_ep ac ->
+  (h_par h = [tr_of al; sys_of al] \/ (al = false /\ h_par h = [System; Transient])) ->
+  (al = true -> ep_allowed_peer c q (ac_ep ac) = true) ->
+  mem (use_of (scopes st) (Peer q)) + mem (use_of (scopes st) (Conn i)) <= max_int64 ->
+  let '(st', cls) := set_peer c st i q in
+  if cls =? 0 then Inv c (scopes st') (ok_state a i q ac al) /\ Link st' (ok_state a i q ac al)
+  else Inv c (scopes st') a /\ Link st' a.
 Proof.
-  intros c st a i q ac LO I L Ga Hno Ov. destruct L as [Lc Ls].
-  destruct (Lc i ac Ga) as (ci & h & Gci & Gh & Epe & Eal & Eep & Hpar).
-  unfold anext. cbn [step astep]. rewrite Ga.
-  destruct (ac_peer ac) as [q0|] eqn:Ap.
-  { unfold set_peer. rewrite Gci, Epe. cbn [fst]. replace (E_OTHER =? 0) with false by reflexivity. cbn [hd].
-    split; [exact I | split; assumption]. }
-  specialize (Hpar eq_refl). specialize (Hno eq_refl).
-  set (al := ac_allow ac) in *.
-  assert (Estill : (al && ep_allowed_peer c q (ac_ep ac)) = al).
-  { destruct al eqn:Al; [|reflexivity]. destruct Hno as [X|X]; [discriminate | rewrite X; reflexivity]. }
+  intros c st a i q ac ci h al LO I L Ga Gci Gh Ap Epe Eal Eal' Eep Hpar Hal Ov.
   assert (Hc : if ci_allow ci then match ci_ep ci with Some ip => allowed_peer c q ip | None => false end = true
                else edges_of (scopes st) (Conn i) <> []).
-  { rewrite Eal. fold al. destruct al eqn:Al.
-    - destruct Hno as [X|X]; [discriminate|]. rewrite Eep. exact X.
+  { rewrite Eal. destruct al eqn:Al.
+    - rewrite Eep. exact (Hal eq_refl).
     - destruct (I_handle c _ a I (Conn i) h Gh eq_refl) as (sc & Gm & _ & _ & Pe & _).
-      unfold edges_of. rewrite Gm, Pe. cbn [leaf]. rewrite Hpar. discriminate. }
-  pose proof (set_peer_eq c st i q ci Gci Epe Hc) as Eq. cbv zeta in Eq. rewrite Eal in Eq. fold al in Eq.
+      unfold edges_of. rewrite Gm, Pe. cbn [leaf]. destruct Hpar as [X|[_ X]]; rewrite X; discriminate. }
+  pose proof (set_peer_eq c st i q ci Gci Epe Hc) as Eq. cbv zeta in Eq. rewrite Eal in Eq.
   set (P' := [Peer q; sys_of al]) in *.
-  set (a2 := mkAstate (holders (set_par a (Conn i) [Peer q; if al && ep_allowed_peer c q (ac_ep ac) then ASystem else System]))
-                      (nset (aconns (set_par a (Conn i) [Peer q; if al && ep_allowed_peer c q (ac_ep ac) then ASystem else System])) i
-                            (mkAconn (ac_ep ac) (al && ep_allowed_peer c q (ac_ep ac)) (Some q) (ac_open ac) (ac_adm ac)))
-                      (astreams (set_par a (Conn i) [Peer q; if al && ep_allowed_peer c q (ac_ep ac) then ASystem else System]))).
-  assert (Hp' : h_par h = [tr_of al; sys_of al]) by (rewrite Hpar; destruct al; reflexivity).
-  pose proof (attach1_inv c (scopes st) a a2 (Conn i) h (Peer q) (tr_of al) P' LO I eq_refl Gh eq_refl) as H.
-  specialize (H ltac:(destruct al; reflexivity) ltac:(destruct al; discriminate)).
-  specialize (H ltac:(rewrite Hp'; left; reflexivity)).
+  destruct (set_par_fields a (Conn i) h [Peer q; if al then ASystem else System] Gh) as (F1 & F2 & F3).
+  assert (Htr : In (tr_of al) (h_par h)).
+  { destruct Hpar as [X|[Z X]]; rewrite X; [left; reflexivity | rewrite Z; right; left; reflexivity]. }
+  pose proof (attach1_inv c (scopes st) a (ok_state a i q ac al) (Conn i) h (Peer q) (tr_of al) P' LO I eq_refl Gh eq_refl) as H.
+  specialize (H ltac:(destruct al; reflexivity) ltac:(destruct al; discriminate) Htr).
   specialize (H ltac:(unfold P'; destruct al; repeat constructor; cbn; intuition discriminate)).
   specialize (H ltac:(unfold P'; intros x [<-|[<-|[]]]; destruct al; reflexivity)).
-  specialize (H ltac:(intros x; rewrite Hp'; unfold P'; cbn [countb]; lia) Ov).
-  specialize (H ltac:(unfold a2; cbn [holders]; rewrite Estill, (set_par_holders a (Conn i) h _ Gh); unfold P', sys_of; reflexivity)).
-  destruct (attach1 c (scopes st) (Conn i) (Peer q) (tr_of al) P') as [m' e]. rewrite Eq. cbn [fst].
-  assert (Ncx : forall i' v, nget (nset (conns st) i v) i' = if Nat.eqb i i' then Some v else nget (conns st) i') by (intros; apply nget_nset).
+  specialize (H ltac:(intros x; unfold P'; destruct Hpar as [X|[Z X]]; rewrite X; [|rewrite Z]; cbn [countb tr_of sys_of]; lia) Ov).
+  specialize (H ltac:(unfold ok_state; cbn [holders]; rewrite F1; unfold repar, P', sys_of; reflexivity)).
+  destruct (attach1 c (scopes st) (Conn i) (Peer q) (tr_of al) P') as [m' e]. rewrite Eq.
   destruct e as [e|].
-  - rewrite ecode_some. replace (al && negb (al && ep_allowed_peer c q (ac_ep ac))) with false by (rewrite Estill; destruct al; reflexivity).
-    rewrite (a_par_leaf a (Conn i) h eq_refl Gh), Hp'. cbn [hd scopes]. split; [exact H|]. split.
-    + intros i' ac' Gi. destruct (Lc i' ac' Gi) as (ci' & hc & P1 & R). unfold conn_link. cbn [conns]. rewrite Ncx.
-      destruct (Nat.eqb i i') eqn:X.
-      * apply Nat.eqb_eq in X. subst i'. rewrite Gci in P1. inversion P1; subst ci'. exists ci, hc. split; [reflexivity | exact R].
-      * exists ci', hc. split; [exact P1 | exact R].
-    + intros j s Gj. destruct (Ls j s Gj) as (si & hs & R). exists si, hs. exact R.
-  - cbn [ecode]. replace (0 =? 0) with true by reflexivity. cbn [hd scopes]. fold a2. split; [exact H|]. split.
-    + intros i' ac' Gi. unfold a2 in Gi. cbn [aconns] in Gi. unfold set_par in Gi. rewrite Gh in Gi. cbn [aconns] in Gi.
-      rewrite nget_nset in Gi. unfold a2, conn_link. cbn [holders conns]. rewrite (set_par_holders a (Conn i) h _ Gh), Ncx.
-      destruct (Nat.eqb i i') eqn:X.
-      * apply Nat.eqb_eq in X. subst i'. inversion Gi; subst ac'. eexists. eexists. rewrite hget_hset, sid_eqb_refl.
-        split; [reflexivity|]. split; [reflexivity|]. cbn. rewrite Estill. repeat split; try assumption; discriminate.
-      * destruct (Lc i' ac' Gi) as (ci' & hc & P1 & P2 & R).
-        destruct (hset_other_leaf (holders a) (Conn i) (mkHolder (h_own h) [Peer q; if al && ep_allowed_peer c q (ac_ep ac) then ASystem else System] (h_chain h) (h_dead h)) (Conn i') hc ltac:(apply Nat.eqb_neq in X; congruence) P2) as (h' & G' & Ep').
-        exists ci', h'. rewrite Ep'. split; [exact P1 | split; [exact G' | exact R]].
-    + intros j s Gj. unfold a2 in Gj. cbn [astreams] in Gj. unfold set_par in Gj. rewrite Gh in Gj. cbn [astreams] in Gj.
-      destruct (Ls j s Gj) as (si & hs & P1 & P2 & R).
-      destruct (hset_other_leaf (holders a) (Conn i) (mkHolder (h_own h) [Peer q; if al && ep_allowed_peer c q (ac_ep ac) then ASystem else System] (h_chain h) (h_dead h)) (Stream j) hs ltac:(discriminate) P2) as (h' & G' & Ep').
-      exists si, h'. unfold a2. cbn [holders streams]. rewrite (set_par_holders a (Conn i) h _ Gh), Ep'.
-      split; [exact P1 | split; [exact G' | exact R]].
+  - rewrite ecode_some. cbn [scopes]. split; [exact H|].
+    apply (link_setpeer st _ a a i ac ci h L); cbn [conns streams]; try reflexivity; try assumption.
+    + intros i'. apply nget_self, Ga.
+    + intros i'. apply nget_nset.
+    + intros y. apply hget_self, Gh.
+    + congruence.
+    + congruence.
+    + intros _. rewrite Eal'. destruct Hpar as [X|X]; [left; rewrite X; destruct al; reflexivity | right; split; [apply X | right; apply X]].
+  - cbn [ecode]. replace (0 =? 0) with true by reflexivity. cbn [scopes]. split; [exact H|].
+    apply (link_setpeer st _ a (ok_state a i q ac al) i (mkAconn (ac_ep ac) al (Some q) (ac_open ac) (ac_adm ac))
+             (mkCinfo (ci_in ci) (ci_fd ci) al (Some q) (ci_ip ci) (ci_ep ci))
+             (mkHolder (h_own h) [Peer q; if al then ASystem else System] (h_chain h) (h_dead h)) L);
+      unfold ok_state; cbn [conns streams aconns astreams holders]; try reflexivity; try assumption.
+    + intros i'. rewrite F2. apply nget_nset.
+    + intros i'. apply nget_nset.
+    + intros y. rewrite F1. apply hget_repar.
+    + intros X; discriminate X.
+Qed.
+
+(* SetPeer that first moves the connection to the standard scopes: an
+   allow-listed connection whose peer is not allowed at this address, or a
+   connection that an earlier refused transfer left without edges (e9a9a54) *)
+Lemma set_peer_eqT : forall c st i q ci ciT,
+  nget (conns st) i = Some ci -> ci_peer ci = None ->
+  ((ci_allow ci = true /\ match ci_ep ci with Some ip => allowed_peer c q ip | None => false end = false /\
+    ciT = mkCinfo (ci_in ci) (ci_fd ci) false None (ci_ip ci) (ci_ep ci)) \/
+   (ci_allow ci = false /\ edges_of (scopes st) (Conn i) = [] /\ ciT = ci)) ->
+  set_peer c st i q =
+  let '(mt, e) := transfer_allowed (scopes st) i in
+  match e with
+  | Some e => (mkState mt (nset (conns st) i ciT) (streams st) (lims st), ecode (Some e))
+  | None =>
+      let '(m', e2) := attach1 c mt (Conn i) (Peer q) Transient [Peer q; System] in
+      (mkState m' (nset (conns st) i
+                     (match e2 with
+                      | None => mkCinfo (ci_in ciT) (ci_fd ciT) (ci_allow ciT) (Some q) (ci_ip ciT) (ci_ep ciT)
+                      | Some _ => ciT end)) (streams st) (lims st), ecode e2)
+  end.
+Proof.
+  intros c st i q ci ciT G Hp Hc. unfold set_peer, attach1. rewrite G, Hp.
+  destruct Hc as [(Al & Na & ->)|(Al & Ed & ->)]; rewrite Al.
+  - rewrite Na. cbn [negb andb]. destruct (transfer_allowed (scopes st) i) as [mt e]. destruct e as [e|]; [reflexivity|].
+    destruct (charge_one (Peer q) _ _) as [m3|e1]; reflexivity.
+  - rewrite Ed. destruct (transfer_allowed (scopes st) i) as [mt e]. destruct e as [e|]; [reflexivity|].
+    destruct (charge_one (Peer q) _ _) as [m3|e1]; rewrite ?Al; reflexivity.
+Qed.
+
+Lemma edges_keep_fail1 : forall c m t s, is_created_view t = true -> get m System <> None -> get m s <> None ->
+  edges_of (decref (get_scope c m t) t) s = edges_of m s.
+Proof.
+  intros c m t s V B Gs. apply edges_of_shape. rewrite decref_shape.
+  destruct (extends_get_scope c m t V B s) as [_ [S|(N & _)]]; [exact S | contradiction].
+Qed.
+
+Lemma attach1_fail_edges : forall c m s t1 tr P' m' e, attach1 c m s t1 tr P' = (m', Some e) ->
+  is_created_view t1 = true -> get m System <> None -> get m s <> None -> edges_of m' s = edges_of m s.
+Proof.
+  intros c m s t1 tr P' m' e H V B Gs. unfold attach1 in H.
+  destruct (charge_one t1 _ _) as [m2|e1]; inversion H; subst. apply edges_keep_fail1; assumption.
+Qed.
+
+(* the peer scope refuses only a connection that holds something *)
+Lemma attach1_fail_nonzero : forall c m a s t1 tr P' m' e, attach1 c m s t1 tr P' = (m', Some e) ->
+  cfg_ok c -> Inv c m a -> is_created_view t1 = true -> use_of m s <> stat0.
+Proof.
+  intros c m a s t1 tr P' m' e H LO I V Z. unfold attach1 in H.
+  destruct (charge_one t1 _ _) as [m2|e1] eqn:C; [discriminate|].
+  rewrite (at_use1 c m a t1 I V s), Z in C.
+  pose proof (at_I1 c m a t1 LO I V) as I1.
+  destruct (get (get_scope c m t1) t1) as [sc|] eqn:G; [|exact (get_scope_present c m t1 G)].
+  assert (Hh : is_handle t1 = false) by (destruct t1; try discriminate; reflexivity).
+  destruct (I_static c _ a I1 t1 sc G Hh) as (D & _).
+  destruct (charge_zero_ok t1 _ sc G D (I_good c _ a I1 t1 sc G)) as (mz & Cz). congruence.
+Qed.
+
+Lemma set_peer_transfer : forall c st a aE aS i q ac ci h acE,
+  cfg_ok c -> Inv c (scopes st) a -> Link st a ->
+  nget (aconns a) i = Some ac -> nget (conns st) i = Some ci -> hget (holders a) (Conn i) = Some h ->
+  ac_peer ac = None -> ci_peer ci = None -> ci_allow ci = ac_allow ac -> ci_ep ci = ac_ep ac ->
+  ((ac_allow ac = true /\ ep_allowed_peer c q (ac_ep ac) = false /\ h_par h = [ATransient; ASystem]) \/
+   (ac_allow ac = false /\ h_par h = [])) ->
+  novf (scopes st) (mem (use_of (scopes st) (Conn i))) ->
+  holders aE = repar a (Conn i) h [] -> holders aS = repar a (Conn i) h [System; Transient] ->
+  (forall i', nget (aconns aE) i' = if Nat.eqb i i' then Some acE else nget (aconns a) i') ->
+  (forall i', nget (aconns aS) i' = if Nat.eqb i i' then Some acE else nget (aconns a) i') ->
+  astreams aE = astreams a -> astreams aS = astreams a ->
+  ac_peer acE = None -> ac_allow acE = false -> ac_ep acE = ac_ep ac ->
+  let '(st', cls) := set_peer c st i q in
+  if cls =? 0 then Inv c (scopes st') (ok_state a i q ac false) /\ Link st' (ok_state a i q ac false)
+  else (edges_of (scopes st') (Conn i) = [] /\ Inv c (scopes st') aE /\ Link st' aE) \/
+       (edges_of (scopes st') (Conn i) = [System; Transient] /\ Inv c (scopes st') aS /\ Link st' aS /\
+        use_of (scopes st) (Conn i) <> stat0).
+Proof.
+  intros c st a aE aS i q ac ci h acE LO I L Ga Gci Gh Ap Epe Eal Eep Hcase Ov HaE HaS NE NS SE SS PE AE EE.
+  assert (HT : exists ciT,
+    ((ci_allow ci = true /\ match ci_ep ci with Some ip => allowed_peer c q ip | None => false end = false /\
+      ciT = mkCinfo (ci_in ci) (ci_fd ci) false None (ci_ip ci) (ci_ep ci)) \/
+     (ci_allow ci = false /\ edges_of (scopes st) (Conn i) = [] /\ ciT = ci)) /\
+    ci_peer ciT = None /\ ci_allow ciT = false /\ ci_ep ciT = ci_ep ci).
+  { destruct Hcase as [(Al & Na & Hp)|(Al & Hp)].
+    - eexists. split; [left; split; [congruence|]; split; [rewrite Eep; exact Na | reflexivity]|]. repeat split.
+    - exists ci. split; [|repeat split; congruence]. right. split; [congruence|]. split; [|reflexivity].
+      destruct (I_handle c _ a I (Conn i) h Gh eq_refl) as (sc & Gm & _ & _ & Pe & _).
+      unfold edges_of. rewrite Gm, Pe. exact Hp. }
+  destruct HT as (ciT & HcT & T1 & T2 & T3).
+  rewrite (set_peer_eqT c st i q ci ciT Gci Epe HcT).
+  pose proof (transfer_inv c (scopes st) a aE aS i h LO I Gh HaE HaS Ov) as T.
+  destruct (transfer_allowed (scopes st) i) as [mt e]. destruct T as (Keep & T).
+  assert (Np : forall x, is_handle x = true \/ is_created_view x = true -> ~ In x (h_par h)).
+  { intros x Hx X. destruct Hcase as [(_ & _ & Hp)|(_ & Hp)]; rewrite Hp in X; [|destruct X].
+    destruct X as [<-|[<-|[]]]; destruct Hx; discriminate. }
+  assert (Kc : use_of mt (Conn i) = use_of (scopes st) (Conn i))
+    by (apply Keep; [discriminate | discriminate | apply Np; left; reflexivity]).
+  assert (Nc : forall v i', nget (nset (conns st) i v) i' = if Nat.eqb i i' then Some v else nget (conns st) i')
+    by (intros; apply nget_nset).
+  destruct e as [e|].
+  - destruct T as (IE & EdE). rewrite ecode_some. left. cbn [scopes]. split; [exact EdE|]. split; [exact IE|].
+    apply (link_setpeer st _ a aE i acE ciT (mkHolder (h_own h) [] (h_chain h) (h_dead h)) L); cbn [conns streams];
+      try reflexivity; try assumption; try congruence; try apply Nc.
+    + intros y. rewrite HaE. apply hget_repar.
+    + intros _. rewrite AE. right. split; [reflexivity | left; reflexivity].
+  - destruct T as (IS & EdS).
+    set (hS := mkHolder (h_own h) [System; Transient] (h_chain h) (h_dead h)).
+    assert (GS : hget (holders aS) (Conn i) = Some hS) by (rewrite HaS, hget_repar, sid_eqb_refl; reflexivity).
+    destruct (set_par_fields a (Conn i) h [Peer q; System] Gh) as (F1 & F2 & F3).
+    pose proof (attach1_inv c mt aS (ok_state a i q ac false) (Conn i) hS (Peer q) Transient [Peer q; System] LO IS eq_refl GS eq_refl eq_refl) as H.
+    specialize (H ltac:(discriminate) ltac:(right; left; reflexivity)).
+    specialize (H ltac:(repeat constructor; cbn; intuition discriminate)).
+    specialize (H ltac:(intros x [<-|[<-|[]]]; reflexivity)).
+    specialize (H ltac:(intros x; cbn [countb h_par hS]; lia)).
+    specialize (H ltac:(rewrite Kc, Keep; [apply Ov | discriminate | discriminate | apply Np; right; reflexivity])).
+    specialize (H ltac:(unfold ok_state; cbn [holders]; rewrite F1, HaS; unfold repar; rewrite hset_hset; reflexivity)).
+    destruct (attach1 c mt (Conn i) (Peer q) Transient [Peer q; System]) as [m' e2] eqn:At.
+    destruct e2 as [e2|].
+    + rewrite ecode_some. right. cbn [scopes].
+      assert (Gs : get mt (Conn i) <> None).
+      { destruct (I_handle c mt aS IS (Conn i) hS GS eq_refl) as (sc & Gm & _). rewrite Gm. discriminate. }
+      split; [rewrite (attach1_fail_edges c mt _ _ _ _ m' e2 At eq_refl (proj1 (I_base c mt aS IS)) Gs); exact EdS|].
+      split; [exact H|]. split.
+      * apply (link_setpeer st _ a aS i acE ciT hS L); cbn [conns streams]; try reflexivity; try assumption; try congruence; try apply Nc.
+        -- intros y. rewrite HaS. apply hget_repar.
+        -- intros _. rewrite AE. right. split; [reflexivity | right; reflexivity].
+      * rewrite <- Kc. apply (attach1_fail_nonzero c mt aS _ _ _ _ m' e2 At LO IS eq_refl).
+    + cbn [ecode]. replace (0 =? 0) with true by reflexivity. cbn [scopes]. split; [exact H|].
+      apply (link_setpeer st _ a (ok_state a i q ac false) i (mkAconn (ac_ep ac) false (Some q) (ac_open ac) (ac_adm ac))
+               (mkCinfo (ci_in ciT) (ci_fd ciT) (ci_allow ciT) (Some q) (ci_ip ciT) (ci_ep ciT))
+               (mkHolder (h_own h) [Peer q; System] (h_chain h) (h_dead h)) L);
+        unfold ok_state; cbn [conns streams aconns astreams holders ci_peer ci_allow ci_ep ac_peer ac_allow ac_ep];
+        try reflexivity; try assumption; try congruence; try apply Nc.
+      * intros i'. rewrite F2. apply nget_nset.
+      * intros y. rewrite F1. apply hget_repar.
 Qed.
